@@ -58,7 +58,7 @@ static void call_end(const char *params)
     }
 }
 
-static uint8_t SEC[8192], OUT[8192], TW[8192];
+static uint8_t SEC[200000], OUT[200000], TW[200000];
 
 static void case_plain(uint64_t k, vh_rng *r)
 {
@@ -125,18 +125,19 @@ static void case_ctr(uint64_t k, vh_rng *r)
     unsigned klen = c->id == CIPH_MANTIS ? 16 : c->bb + (unsigned)((q / 6) % ((tweaked ? 1 : 2) * c->bb + 1));
     unsigned clen = (unsigned)((q / 7) % (c->bb + 1)), tlen = c->id == CIPH_MANTIS ? 8 : 1 + (unsigned)((q / 5) % c->bb);
     unsigned total = (unsigned)((q * 7) % 201), nsplit = 1 + (unsigned)(q % 4), i, done = 0;
+    if (q % 61 == 17) total = 66000 + (unsigned)(q % 5000);          /* requests of 64 KiB and more take other paths in some implementations */
     vh_handle h; char params[128]; const char *ben = vh_backend_names[be], *fn[6];
     static char fnb[6][48];
     static const char *const suf[6] = {"ctr_init", "ctr_set_key", "ctr_set_tweak", "ctr_set_counter", "ctr_encrypt", "ctr_cleanup"};
     for (i = 0; i < 6; ++i) { snprintf(fnb[i], 48, "%s_%s", c->name, suf[i]); fn[i] = fnb[i]; }
     if (tweaked) snprintf(fnb[1], 48, "%s_ctr_set_tweaked_key", c->name);
-    vh_rand_bytes(r, SEC, 512); PUBLIC(SEC, 512);
+    vh_rand_bytes(r, SEC, 512); if (total > 300) memset(SEC + 512, 0x6B, total); PUBLIC(SEC, 512 + total);
     memset(&h, 0, sizeof(h));
     vh_set_cap(be);
     snprintf(params, sizeof(params), "key_len=%u tweak_len=%u counter_len=%u total=%u calls=%u", klen, tlen, clen, total, nsplit);
     call_begin(fn[0], ben, params); c->ctr_init(&h); call_end(params);
     if (c->ctr_backend(&h) != be) { viol("C08:backend-not-pinned", "{}"); c->ctr_cleanup(&h); return; }
-    SECRET(SEC, 48); SECRET(SEC + 64, 16); SECRET(SEC + 96, 16); SECRET(SEC + 128, 256);
+    SECRET(SEC, 48); SECRET(SEC + 64, 16); SECRET(SEC + 96, 16); SECRET(SEC + 128, 256 + total);
     call_begin(fn[1], ben, params); if (tweaked) c->ctr_set_tkey(&h, SEC, klen); else c->ctr_set_key(&h, SEC, klen, 5 + (unsigned)(q % 4)); call_end(params);
     if (tweaked || c->id == CIPH_MANTIS) {
         call_begin(fn[2], ben, params); c->ctr_set_tweak(&h, SEC + 64, tlen); call_end(params);
@@ -151,7 +152,7 @@ static void case_ctr(uint64_t k, vh_rng *r)
         if (i == 1 && (q & 8)) { call_begin(fn[1], ben, params); if (tweaked) c->ctr_set_tkey(&h, SEC, klen); else c->ctr_set_key(&h, SEC, klen, 6); call_end(params); }   /* mid-stream rekey path */
         if (i == 0 && (q & 64) && (tweaked || c->id == CIPH_MANTIS)) { call_begin(fn[2], ben, params); c->ctr_set_tweak(&h, SEC + 80, tlen); call_end(params); }      /* mid-stream tweak change */
     }
-    PUBLIC(OUT, 256);
+    PUBLIC(OUT, 256 + total);
     call_begin(fn[5], ben, params); c->ctr_cleanup(&h); call_end(params);
 }
 
@@ -160,7 +161,7 @@ static void case_par(uint64_t k, vh_rng *r)
     const vh_cipher *c = &vh_ciphers[k % CIPH_N];
     uint64_t q = k / CIPH_N;
     int be = (int)(q % (uint64_t)(maxbe[c->id] + 1));
-    unsigned klen = c->id == CIPH_MANTIS ? 16 : c->bb + (unsigned)((q / 3) % (2 * c->bb + 1)), nb = (unsigned)((q / 2) % 21), len = nb * c->bb;
+    unsigned klen = c->id == CIPH_MANTIS ? 16 : c->bb + (unsigned)((q / 3) % (2 * c->bb + 1)), nb = (q % 53 == 29) ? 4200 + (unsigned)(q % 300) : (unsigned)((q / 2) % 21), len = nb * c->bb;
     vh_handle h; char params[128]; const char *ben = vh_backend_names[be]; static char fnb[5][56]; unsigned i;
     static const char *const suf[5] = {"parallel_ecb_set_key", "parallel_ecb_encrypt", "parallel_ecb_decrypt", "parallel_ecb_swap_modes", "parallel_ecb_crypt"};
     for (i = 0; i < 5; ++i) snprintf(fnb[i], 56, "%s_%s", c->name, suf[i]);
